@@ -356,16 +356,24 @@ def categories (strong : Bool) (cols : List Col) : List (Option Nat × Dom) := c
 /-- decimal digits of `std::to_string(i)` -/
 def natStr (i : Nat) : Str := (Nat.repr i).toList
 
-/-- the variables `setup_terminals` inserts: column `i ≥ 1` becomes `variable(name, i - 1, category)` -/
-def setupTerminals (strong : Bool) (cols : List Col) : M (List VarSym) :=
+/-- name of the variable made for column `i` -/
+def varName (c : Col) (i : Nat) : Str := if c.name.isEmpty then 'X' :: natStr i else c.name
+
+/-- the loop of `setup_terminals` over the columns `i, i + 1, …` (`v` = next index into the
+    input vector).  As found (`guards = false`) every column `i` becomes `variable(name, i - 1,
+    category)`; after the fix a column without a domain – which `to_example` leaves out of the
+    examples – gets no variable and does not use up an index. -/
+def setupVarsGo (guards : Bool) (cats : List (Option Nat × Dom)) : List Col → Nat → Nat → List VarSym
+  | [], _, _ => []
+  | c :: cs, i, v =>
+    if guards && c.dom = .void then setupVarsGo guards cats cs (i + 1) v
+    else { name := varName c i, var := v, category := (cats.getD i (none, .void)).1 } ::
+           setupVarsGo guards cats cs (i + 1) (v + 1)
+
+/-- the variables `setup_terminals` inserts -/
+def setupTerminals (cfg : Cfg) (strong : Bool) (cols : List Col) : M (List VarSym) :=
   if cols.length < 2 then throw (.exc .insufficientData)
-  else
-    let cats := categories strong cols
-    pure ((List.range (cols.length - 1)).map (fun j =>
-      let c := cols.getD (j + 1) {}
-      { name := if c.name.isEmpty then 'X' :: natStr (j + 1) else c.name,
-        var := j,
-        category := (cats.getD (j + 1) (none, .void)).1 }))
+  else pure (setupVarsGo cfg.guards (categories strong cols) cols.tail 1 0)
 
 /-- `src_interpreter::fetch_var`: `(*example_)[i]`, an out-of-bounds read when `i` is too large -/
 def fetchVar {F} (e : Example F) (i : Nat) : M (Val F) :=
